@@ -519,6 +519,10 @@ static void quiesce(void)
 		for(int i = 0; i < nth; ++i)
 			if(TH[i].state == T_RUNNABLE)
 				return;
+		if(H->on_quiesce && H->on_quiesce()) {
+			unpark_check();
+			continue;
+		}
 		int clk = 0;
 		for(int i = 0; i < nth && !clk; ++i)
 			if(TH[i].state == T_PARKED)
